@@ -84,7 +84,7 @@ Definition occ_glued (c : ctxspec) (given : list nat) (o : occ) : bool :=
           takes_value a && negb (a_optional a) && plain s
           && negb (String.eqb s "") && negb (contains_char "=" s)
           && Nat.eqb (String.length (flag_of a (o_name o))) 2
-          && match a_kind a with KInt => intlike s | _ => true end
+          && castable a s
           && (akind_eqb (a_kind a) KList || negb (mem_nat (o_arg o) given))
       | _, _ => false
       end
@@ -122,7 +122,7 @@ Proof.
   assert (Tv' : takes_value (r_spec r) = true) by (rewrite Sr; exact Tv).
   assert (No' : a_optional (r_spec r) = false) by (rewrite Sr; exact No).
   destruct (set_value_str r s Tv') as [r' [SV [Sp [Rw [Nnone Hl]]]]].
-  { intros K. rewrite Sr in K. rewrite K in Hint. exact Hint. }
+  { rewrite Sr. exact Hint. }
   { intros K. eapply (so_list _ _ _ St); eauto. }
   unfold occ_input. rewrite Vo, SV. unfold text_of.
   exists (Some (S (List.length done), o_arg o)), true.
